@@ -41,8 +41,10 @@ def _ctor_supplied(template):
         s = R.preprocess(template.replace("{}", w))
         scheme, auth, path, query, frag, status = R.split(s)
         out = []
+        host_text = None
         if auth is not None:
             user, pw, host, port = R.split_authority(auth)
+            host_text = host
             if user:
                 out.append(("user", user, "requote"))
             if pw is not None:
@@ -52,7 +54,7 @@ def _ctor_supplied(template):
             out.append(("query", query, "requote"))
         if frag is not None:
             out.append(("fragment", frag, "requote"))
-        return out, {"has_authority": bool(auth), "scheme_status": status}
+        return out, {"has_authority": bool(auth), "scheme_status": status, "host_text": host_text, "authority_text": auth}
     return sup
 
 
@@ -70,6 +72,11 @@ CTOR_TEMPLATES = {
     "ctor_relquery": "?{}",
     "ctor_relfragment": "#{}",
     "ctor_all": "http://{}:{}@h.com/{}?{}#{}",
+    "ctor_host": "http://{}/p",
+    "ctor_host_port": "https://u@{}:81/p",
+    "ctor_zone": "http://[fe80::1%{}]/p",
+    "ctor_http_noauth": "http:{}",
+    "ctor_netpath": "//{}",
 }
 
 for _n, _t in CTOR_TEMPLATES.items():
@@ -140,6 +147,21 @@ def _(w):
 @route("build_fragment", "build", _one("fragment", "decoded", has_authority=True))
 def _(w):
     return impl.URL.build(scheme="http", host="h.com", path="/p", fragment=w)
+
+
+@route("build_host", "build", lambda w: ([], {"has_authority": True, "host_text": w, "unbracketed": True}))
+def _(w):
+    return impl.URL.build(scheme="http", host=w, path="/p")
+
+
+@route("build_authority", "build", lambda w: ([], {"has_authority": True, "host_text": R.split_authority(w)[2], "authority_text": w}))
+def _(w):
+    return impl.URL.build(scheme="http", authority=w, path="/p")
+
+
+@route("with_host", "mod", lambda w: ([], {"has_authority": True, "host_text": w, "unbracketed": True}))
+def _(w):
+    return impl.URL(BA).with_host(w)
 
 
 # ---- modifiers -----------------------------------------------------------------------------------------------------
